@@ -12,11 +12,14 @@ RECURSIVE HornerZ(_,_,_)
 HornerZ(c, x, i) == IF i = 0 THEN 0 ELSE HornerZ(c, x, i-1) * x + c[Len(c) - i + 1]
 OkSS(r) == /\ r.recover = (IF Len(r.pick) > r.t THEN "secret" ELSE "error")
            /\ r.verify_dealt = TRUE /\ r.verify_badval = FALSE /\ r.verify_badid = FALSE
+\* "ss-huge": a threshold of 2^63 or more (r.ids names it): r.n shares are never qualified, no share verifies, nothing panics
+\* (verify_badval is the driver's flag "a Verify call panicked")
+OkHuge(r) == r.recover = "error" /\ r.verify_dealt = FALSE /\ r.verify_badid = FALSE /\ r.verify_badval = FALSE
 OkPoly(r) == r.val = HornerZ(r.coef, r.x, Len(r.coef))
 OkRSA(r) == r.result = (IF Len(r.pick) >= r.k THEN "valid" ELSE "error")
 OkLambda(r) == r.lam = Sh!Lambda(r.S, r.j, Sh!Fact(r.l))
 OkRPoly(r) == r.val = Sh!PolyEval(r.a, r.x, r.m)
-OkLine(r) == CASE r.ev = "ss" -> OkSS(r) [] r.ev = "poly" -> OkPoly(r) [] r.ev = "rsa" -> OkRSA(r)
+OkLine(r) == CASE r.ev = "ss" -> OkSS(r) [] r.ev = "ss-huge" -> OkHuge(r) [] r.ev = "poly" -> OkPoly(r) [] r.ev = "rsa" -> OkRSA(r)
                [] r.ev = "lambda" -> OkLambda(r) [] r.ev = "rpoly" -> OkRPoly(r) [] OTHER -> FALSE
 INSTANCE LinesTrace WITH Ok <- OkLine
 ASSUME TLCSet(1, 0) /\ TLCSet(2, {}) /\ TLCSet(3, ndJsonDeserialize("trace.ndjson"))
